@@ -1,3 +1,3 @@
-CONSTANTS Prog <- RdBig ResetLocking = "release" EventUnlock = TRUE HandlerFetch = TRUE
+CONSTANTS Prog <- RdBig ResetLocking = "release" EventUnlock = TRUE HandlerFetch = TRUE Arm = 2 GapLocked = TRUE ResizeSameUnlocks = TRUE
 SPECIFICATION Spec
-INVARIANTS LocksetOK NoRace CallbackUnlocked NoSelfLock SnapshotAtomic ConsistentSet ContextOK HolderOK
+INVARIANTS LocksetOK NoRace CallbackUnlocked NoSelfLock SnapshotAtomic ConsistentSet ContextOK LockBalance SwitchServed HolderOK
